@@ -140,6 +140,26 @@ def check_C17(c):
     for a, o in zip(optsets, outs):
         traces.append({'kind': 'cliseeds', 'args': a, 'outs': o})
     c.judge('J_Purity', traces, 'purity', nontrivial=lambda t: t['kind'] == 'cliseeds' or len(t['hist']) >= 3)
+    # API surface outside the listed properties (specification growth): reported as drift only
+    jobs = []
+    for i in range(_q(c, 300, 5000)):
+        node, meta = gen.random_tree(c.rng, gen.TreeCfg(wellformed=False, max_nodes=7, p_empty_node=0.05))
+        jobs.append(('tr_api_tree', dict(node=gen.node_to_json(node), meta=meta)))
+    for i in range(_q(c, 300, 5000)):
+        tr, vs = gen.arbitrary_triples(c.rng, 4)
+        tr2 = list(tr)
+        r = c.rng.random()
+        if r < 0.3:
+            c.rng.shuffle(tr2)
+        elif r < 0.5 and tr2:
+            tr2.append(list(tr2[0]))
+        elif r < 0.7 and tr2:
+            tr2[-1] = [tr2[-1][0], ':zz', tr2[-1][2]]
+        jobs.append(('tr_api_grapheq', dict(tr1=tr, top1=c.rng.choice(vs + [None]), tr2=tr2, top2=c.rng.choice(vs + [None]))))
+    for text in ['1', '01', 'e.1', 'e1', 'E.12,3', 'x.0,00,7', '10,2', 'Z9']:
+        jobs.append(('tr_api_aln', dict(text=text)))
+    api = pmake(jobs)
+    c.judge('J_Api', api, 'api-surface', gating=False)
     c.rule = ('call histories of 10 calls generated by TLC in simulation mode from Purity.tla (23 operations: interpret, configure, '
               'reconfigure, format, encode, decode, canonicalize_roles, the four transformations, graph queries, errors, diagnostics, '
               'alignments, tree nodes/walk, |, -, and the in-place |=, -=, top=, rearrange, reset_variables) on a shared pool of 2 trees '
